@@ -98,6 +98,29 @@ CLAIMED = {
                 "bit and error values are re-read from the macro table on every run.",
         "design_ref": "DESIGN.md section 3 / C14, rule R11",
     },
+    "C08": {
+        "technique": "collective-sequence language analysis: path-sensitive abstract interpretation with a "
+                     "rank-uniformity taint (explicit + implicit flows), languages of MPI-collective sequences as "
+                     "reduced ordered decision diagrams over rank-uniform atoms, computed bottom-up over the call "
+                     "graph with context-sensitive callee expansion; safe-mode return-uniformity taint rule; "
+                     "zero-request effect rule",
+        "text": "Decides, for each of 29 collective entry points of the ncmpio driver (file, define-mode, attribute, "
+                "blocking data *_all and wait_all forms) and every function they reach, that under every valuation "
+                "of the rank-uniform predicates the sequence of MPI collectives (communicator and collective-handle "
+                "file operations) is the same whatever the rank-varying data (rank, data-API arguments, NC_REQ_ZERO, "
+                "request queues, values derived from them) make the varying branches do; that loops containing "
+                "collectives have rank-uniform trip conditions; that with safe mode on every non-zero return after a "
+                "collective in the dispatcher's metadata wrappers is Allreduce/Bcast-derived; and that the "
+                "NC_REQ_ZERO path never touches start/count/stride/buf/varid. Known divergences are listed findings "
+                "(F-C08-1, F-C08-2). It does not decide deadlocks inside MPI-IO, point-to-point aggregation traffic, "
+                "or behaviour under MPI communication failures.",
+        "note": "nprocs > 1; MPI calls return MPI_SUCCESS (I/O faults are C11's subject) and allocations succeed; "
+                "replicated header state (struct NC/PNC fields other than the frozen varying list) and NC.numrecs in "
+                "collective mode are rank-uniform (C05 is the side condition); two reasoned predicates are used only "
+                "while their side conditions (rule R2.reasoned) hold; path sensitivity is bounded by per-block state "
+                "widening (12 states), which can only add paths.",
+        "design_ref": "DESIGN.md section 3 / C08, rule R2",
+    },
 }
 
 NA_REASON = {
